@@ -6,6 +6,9 @@ import PermutaModel.Lemmas.C12Quick
 import PermutaModel.Lemmas.C12Textbook
 import PermutaModel.Props.C01
 import PermutaModel.Lemmas.C12Char
+import PermutaModel.Lemmas.C12RSKShape
+import PermutaModel.Lemmas.C12RSKGreene
+import PermutaModel.Lemmas.C12RSKContains
 
 /-!
 # C12 — sorting operators, the Simion–Schmidt map and named families
@@ -587,5 +590,247 @@ example : IsPerm [1, 0, 2, 4, 3] ∧ Spec.quickPass [1, 0, 2, 4, 3] = Model.iden
     Spec.quickPass [1, 3, 0, 2] ≠ Model.identity 4 := by decide
 
 -- ===== pv12b: end =====
+
+-- ===== pv12c: Schensted / Greene =====
+
+/-! ## C1  the Young tableau of `_perm_to_yt` (row insertion), every duplicate-free word
+
+`σ.Nodup` covers every permutation (`IsPerm σ` is `σ.Nodup ∧ …`) and every tuple of distinct naturals the
+`Perm` constructor accepts. -/
+
+/-- every row of the tableau is strictly increasing -/
+theorem permToYt_rows_increasing (σ : NSeq) (h : σ.Nodup) :
+    ∀ r ∈ Model.permToYt σ, r.Pairwise (· < ·) := by
+  rw [permToYt_eq]; exact (tabOK_tabIns _ σ (Nat.le_refl _) h).row_sorted
+
+/-- no row is empty -/
+theorem permToYt_rows_nonempty (σ : NSeq) (h : σ.Nodup) : ∀ r ∈ Model.permToYt σ, r ≠ [] := by
+  rw [permToYt_eq]; exact (tabOK_tabIns _ σ (Nat.le_refl _) h).row_ne_nil
+
+/-- every column is strictly increasing downwards, and a row is never longer than the row above it:
+    a cell `(i+1, j)` of the tableau has a cell `(i, j)` above it with a smaller entry -/
+theorem permToYt_columns_increasing (σ : NSeq) (h : σ.Nodup) (i j : Nat)
+    (hi : i + 1 < (Model.permToYt σ).length) (hj : j < ((Model.permToYt σ).getD (i + 1) []).length) :
+    j < ((Model.permToYt σ).getD i []).length ∧
+      ((Model.permToYt σ).getD i []).getD j 0 < ((Model.permToYt σ).getD (i + 1) []).getD j 0 := by
+  rw [permToYt_eq] at hi hj ⊢
+  exact ((tabOK_tabIns _ σ (Nat.le_refl _) h).dom_at i hi).getD_lt j hj
+
+/-- the entries of the tableau are exactly the entries of the word (no hypothesis on `σ`) -/
+theorem permToYt_entries (σ : NSeq) : (Model.permToYt σ).flatten.Perm σ := by
+  rw [permToYt_eq]; exact tabIns_flatten_perm _ σ (Nat.le_refl _)
+
+/-- the shape (row lengths) is a partition of `|σ|`: weakly decreasing positive parts summing to `|σ|` -/
+theorem permToYt_shape_partition (σ : NSeq) (h : σ.Nodup) :
+    ((Model.permToYt σ).map List.length).Pairwise (· ≥ ·) ∧
+    (∀ m ∈ (Model.permToYt σ).map List.length, 1 ≤ m) ∧
+    ((Model.permToYt σ).map List.length).sum = σ.length := by
+  refine ⟨?_, ?_, ?_⟩
+  · rw [permToYt_eq]; exact (tabOK_tabIns _ σ (Nat.le_refl _) h).lengths_antitone
+  · intro m hm
+    obtain ⟨r, hr, e⟩ := List.mem_map.mp hm
+    have := permToYt_rows_nonempty σ h r hr
+    subst e
+    cases r with
+    | nil => exact absurd rfl this
+    | cons _ _ => simp
+  · rw [sum_length_flatten, (permToYt_entries σ).length_eq]
+
+/-- non-vacuity: a tableau with three rows, and what goes wrong with a repeated entry (two equal
+    entries in a row), so `Nodup` is needed -/
+example : Model.permToYt [1, 3, 2, 0, 4] = [[0, 2, 4], [1], [3]] ∧ Model.permToYt [1, 1] = [[1, 1]] := by
+  decide
+
+/-! ## C2  Schensted's theorem -/
+
+/-- **Schensted (rows)**: the first row of the tableau is as long as a longest strictly increasing
+    subsequence of `σ` (`Spec.IsLIS`: some subsequence `s <+ σ` is increasing of that length, none is
+    longer) -/
+theorem schensted_first_row (σ : NSeq) (h : σ.Nodup) :
+    Spec.IsLIS σ ((Model.permToYt σ).getD 0 []).length := by
+  rw [permToYt_row0]; exact isLIS_rowOf σ h
+
+/-- **Schensted (columns)**: the number of rows of the tableau is the length of a longest strictly
+    decreasing subsequence of `σ` -/
+theorem schensted_row_count (σ : NSeq) (h : σ.Nodup) : Spec.IsLDS σ (Model.permToYt σ).length := by
+  rw [permToYt_eq]; exact isLDS_tabIns _ σ (Nat.le_refl _) h
+
+/-- the row recursion behind both theorems: the tableau of a non-empty word is its first row on top of the
+    tableau of the word of entries bumped out of the first row (`C12.bumpsOf`, in the order of bumping); so
+    the second row is as long as a longest increasing subsequence of the bumped word (the statement about
+    `σ` itself is Greene's theorem below) -/
+theorem permToYt_row_recursion (σ : NSeq) (h : σ.Nodup) :
+    Model.permToYt σ = (if σ = [] then [] else rowOf σ :: Model.permToYt (bumpsOf σ)) ∧
+    Spec.IsLIS (bumpsOf σ) ((Model.permToYt σ).getD 1 []).length := by
+  constructor
+  · split
+    · rename_i e; subst e; rfl
+    · rename_i e; rw [permToYt_eq, permToYt_eq, tabIns_rec σ e]
+  · rw [permToYt_row1]; exact isLIS_rowOf _ (bumpsOf_nodup σ h)
+
+/-- non-vacuity: `1 3 2 0 4` has the increasing subsequence `1 2 4`, the decreasing one `3 2 0`, none of
+    length 4; its bumped word is `3 1` -/
+example : Spec.IsLIS [1, 3, 2, 0, 4] 3 ∧ Spec.IsLDS [1, 3, 2, 0, 4] 3 ∧ bumpsOf [1, 3, 2, 0, 4] = [3, 1] ∧
+    List.Sublist [1, 2, 4] [1, 3, 2, 0, 4] ∧ List.Sublist [3, 2, 0] [1, 3, 2, 0, 4] :=
+  ⟨schensted_first_row _ (by decide), schensted_row_count _ (by decide), by decide, by decide, by decide⟩
+
+/-- the shape lies between the hook and the rectangle: `LIS + LDS - 1 ≤ |σ| ≤ LIS · LDS`
+    (the right half is the Erdős–Szekeres theorem, here read off the tableau) -/
+theorem shape_bounds (σ : NSeq) (h : σ.Nodup) (hne : σ ≠ []) (a d : Nat) (ha : Spec.IsLIS σ a)
+    (hd : Spec.IsLDS σ d) : a + d ≤ σ.length + 1 ∧ σ.length ≤ a * d := by
+  have e1 := ha.unique (isLIS_rowOf σ h)
+  have e2 := hd.unique (isLDS_tabIns _ σ (Nat.le_refl _) h)
+  subst e1 e2
+  exact ⟨(shape_counts σ h hne).1, (shape_counts σ h hne).2.1⟩
+
+/-! ## C3  the two shape predicates of the source -/
+
+/-- what `yt_perm_avoids_22` tests: the second row of the tableau has at most one cell -/
+theorem ytAvoids22_iff_second_row (σ : NSeq) (h : σ.Nodup) :
+    Model.ytAvoids22 σ = true ↔ ((Model.permToYt σ).getD 1 []).length ≤ 1 := by
+  unfold Model.ytAvoids22
+  rw [Bool.not_eq_true', ← Bool.not_eq_true, containsShape_two _ 2 2 (by omega), permToYt_row0, permToYt_row1]
+  have := row1_le_row0 σ h
+  omega
+
+/-- what `yt_perm_avoids_32` tests (every tuple): not (first row `≥ 3` and second row `≥ 2`) -/
+theorem ytAvoids32_iff_rows (σ : NSeq) :
+    Model.ytAvoids32 σ = true ↔
+      ¬ (3 ≤ ((Model.permToYt σ).getD 0 []).length ∧ 2 ≤ ((Model.permToYt σ).getD 1 []).length) := by
+  unfold Model.ytAvoids32
+  rw [Bool.not_eq_true', ← Bool.not_eq_true, containsShape_two _ 3 2 (by omega)]
+
+/-- **hook shapes**: the tableau of `σ` avoids the shape `(2,2)` iff a longest increasing and a longest
+    decreasing subsequence together are as long as they can be: `LIS σ + LDS σ = |σ| + 1`
+    (always `≤`, see `shape_bounds`) -/
+theorem ytAvoids22_iff_hook (σ : NSeq) (h : σ.Nodup) (a d : Nat) (ha : Spec.IsLIS σ a)
+    (hd : Spec.IsLDS σ d) : Model.ytAvoids22 σ = true ↔ σ = [] ∨ σ.length + 1 = a + d := by
+  rw [ytAvoids22_iff_second_row σ h, permToYt_row1]
+  by_cases hne : σ = []
+  · subst hne; simp [bumpsOf, bumpRun, rowOf, rowRun]
+  · have e1 := ha.unique (isLIS_rowOf σ h)
+    have e2 := hd.unique (isLDS_tabIns _ σ (Nat.le_refl _) h)
+    subst e1 e2
+    rw [← (shape_counts σ h hne).2.2]
+    simp [hne]
+
+/-- the tableau of `σ` avoids the shape `(3,2)` iff `σ` has no increasing subsequence of length 3 or its
+    shape is a hook -/
+theorem ytAvoids32_iff_hook (σ : NSeq) (h : σ.Nodup) (a d : Nat) (ha : Spec.IsLIS σ a)
+    (hd : Spec.IsLDS σ d) : Model.ytAvoids32 σ = true ↔ a ≤ 2 ∨ σ.length + 1 = a + d := by
+  rw [ytAvoids32_iff_rows, permToYt_row0, permToYt_row1]
+  have e1 := ha.unique (isLIS_rowOf σ h)
+  subst e1
+  by_cases hne : σ = []
+  · subst hne; simp [rowOf, rowRun]
+  · have e2 := hd.unique (isLDS_tabIns _ σ (Nat.le_refl _) h)
+    subst e2
+    rw [(shape_counts σ h hne).2.2]
+    omega
+
+/-- non-vacuity: `2 0 3 1` (shape `(2,2)`: LIS 2, LDS 2, `2 + 2 < 4 + 1`) is rejected by the first
+    predicate only, `1 3 2 0 4` (hook `(3,1,1)`) is accepted by both, `0 2 4 1 3` (shape `(3,2)`) by
+    neither -/
+example : Model.ytAvoids22 [2, 0, 3, 1] = false ∧ Model.ytAvoids32 [2, 0, 3, 1] = true ∧
+    Model.ytAvoids22 [1, 3, 2, 0, 4] = true ∧ Model.ytAvoids32 [1, 3, 2, 0, 4] = true ∧
+    Model.ytAvoids22 [0, 2, 4, 1, 3] = false ∧ Model.ytAvoids32 [0, 2, 4, 1, 3] = false := by decide
+
+/-! ## C4  Greene's theorem: the whole shape
+
+`Spec.IsGreeneFam k σ m`: `m` is the largest total length of `k` pairwise disjoint strictly increasing
+subsequences of `σ` (`Spec/C12RSK.lean`; `Spec.IsGreeneInc` is the same through colourings of the letters,
+`C12.isGreeneInc_iff_fam`).  Proof: the insertion respects Knuth's relations (`C12.tab_knuth`), these keep
+the number of letters coverable by `k` increasing subsequences (`C12.knuth_hasCol`), and on the reading word
+of a tableau `k` increasing subsequences meet every column at most `k` times (`C12.rw_colouring_le`). -/
+
+/-- **Greene's theorem** (`ytShape_eq_RSK` of the harness): for every `k` the first `k` rows of the
+    tableau built by `_perm_to_yt` have together as many cells as `k` pairwise disjoint increasing
+    subsequences of `σ` can cover at most -/
+theorem ytShape_eq_RSK (σ : NSeq) (h : σ.Nodup) (k : Nat) :
+    Spec.IsGreeneFam k σ (((Model.permToYt σ).map List.length).take k).sum := by
+  rw [permToYt_eq]; exact greeneFam_tabIns σ h k
+
+/-- the same with colourings: `k` colours, every colour class increasing -/
+theorem ytShape_eq_RSK_colourings (σ : NSeq) (h : σ.Nodup) (k : Nat) :
+    Spec.IsGreeneInc k σ (((Model.permToYt σ).map List.length).take k).sum := by
+  rw [permToYt_eq]; exact greene_tabIns σ h k
+
+/-- so the shape is determined by `σ` alone: row `k` has `g (k+1) - g k` cells, where `g k` is the largest
+    total length of `k` disjoint increasing subsequences -/
+theorem ytShape_rows_from_greene (σ : NSeq) (h : σ.Nodup) (g : Nat → Nat)
+    (hg : ∀ k, Spec.IsGreeneFam k σ (g k)) (k : Nat) :
+    ((Model.permToYt σ).getD k []).length = g (k + 1) - g k := by
+  have e (j : Nat) : g j = (((Model.permToYt σ).map List.length).take j).sum := by
+    have h1 := (isGreeneInc_iff_fam σ h j _).mpr (hg j)
+    exact h1.unique (ytShape_eq_RSK_colourings σ h j)
+  rw [e (k + 1), e k, take_succ_sum, getD_map_length]
+  omega
+
+/-- one increasing subsequence: `Spec.IsGreeneFam 1` is `Spec.IsLIS` -/
+theorem greene_one_iff_lis (σ : NSeq) (h : σ.Nodup) (m : Nat) : Spec.IsGreeneFam 1 σ m ↔ Spec.IsLIS σ m := by
+  rw [← isGreeneInc_iff_fam σ h, isGreeneInc_one_iff σ h]
+
+/-- non-vacuity: in `0 2 4 1 3` (shape `(3,2)`) the subsequences `0 2 4` and `1 3` cover all five letters;
+    in `1 3 2 0 4` (shape `(3,1,1)`) two increasing subsequences cover at most four -/
+example : Spec.IsGreeneFam 2 [0, 2, 4, 1, 3] 5 ∧ Spec.IsGreeneFam 2 [1, 3, 2, 0, 4] 4 ∧
+    Spec.IsIncFamily [0, 2, 4, 1, 3] [[0, 2, 4], [1, 3]] :=
+  ⟨ytShape_eq_RSK _ (by decide) 2, ytShape_eq_RSK _ (by decide) 2,
+    ⟨by intro s hs; simp at hs; rcases hs with e | e <;> subst e <;> decide, by decide⟩⟩
+
+/-- **`yt_perm_avoids_22`, index level**: the tableau avoids the shape `(2,2)` iff two disjoint increasing
+    subsequences never cover more than one letter beyond a longest increasing subsequence -/
+theorem ytAvoids22_iff_greene (σ : NSeq) (h : σ.Nodup) (a g : Nat) (ha : Spec.IsLIS σ a)
+    (hg : Spec.IsGreeneFam 2 σ g) : Model.ytAvoids22 σ = true ↔ g ≤ a + 1 := by
+  have e1 := ha.unique (schensted_first_row σ h)
+  have e2 := ((isGreeneInc_iff_fam σ h 2 _).mpr hg).unique (ytShape_eq_RSK_colourings σ h 2)
+  rw [take_two_sum] at e2
+  rw [ytAvoids22_iff_second_row σ h]
+  omega
+
+/-- **`yt_perm_avoids_32`, index level**: the tableau avoids the shape `(3,2)` iff there is no increasing
+    subsequence of length 3 or two disjoint increasing subsequences never cover more than one letter beyond
+    a longest one -/
+theorem ytAvoids32_iff_greene (σ : NSeq) (h : σ.Nodup) (a g : Nat) (ha : Spec.IsLIS σ a)
+    (hg : Spec.IsGreeneFam 2 σ g) : Model.ytAvoids32 σ = true ↔ a ≤ 2 ∨ g ≤ a + 1 := by
+  have e1 := ha.unique (schensted_first_row σ h)
+  have e2 := ((isGreeneInc_iff_fam σ h 2 _).mpr hg).unique (ytShape_eq_RSK_colourings σ h 2)
+  rw [take_two_sum] at e2
+  rw [ytAvoids32_iff_rows]
+  omega
+
+/-- non-vacuity: for `2 0 3 1` the two sides of `ytAvoids22_iff_greene` are `false` (LIS 2, two disjoint
+    increasing subsequences cover all 4 letters), for `1 3 2 0 4` they are `true` (LIS 3, cover 4) -/
+example : Spec.IsLIS [2, 0, 3, 1] 2 ∧ Spec.IsGreeneFam 2 [2, 0, 3, 1] 4 ∧ Model.ytAvoids22 [2, 0, 3, 1] = false ∧
+    Spec.IsLIS [1, 3, 2, 0, 4] 3 ∧ Spec.IsGreeneFam 2 [1, 3, 2, 0, 4] 4 ∧ Model.ytAvoids22 [1, 3, 2, 0, 4] = true :=
+  ⟨schensted_first_row _ (by decide), ytShape_eq_RSK _ (by decide) 2, by decide,
+    schensted_first_row _ (by decide), ytShape_eq_RSK _ (by decide) 2, by decide⟩
+
+/-! ## C5  Schensted through the pattern vocabulary of `Spec/Basic.lean` -/
+
+/-- `σ` contains the increasing pattern `0 1 … k-1` iff the first row of its tableau has at least `k` cells -/
+theorem contains_identity_iff_first_row (σ : NSeq) (h : σ.Nodup) (k : Nat) :
+    Contains σ (Model.identity k) ↔ k ≤ ((Model.permToYt σ).getD 0 []).length :=
+  contains_identity_iff_le_lis σ _ k (schensted_first_row σ h)
+
+/-- `σ` contains the decreasing pattern `k-1 … 1 0` iff its tableau has at least `k` rows -/
+theorem contains_monoDec_iff_row_count (σ : NSeq) (h : σ.Nodup) (k : Nat) :
+    Contains σ (Model.monoDec k) ↔ k ≤ (Model.permToYt σ).length :=
+  contains_monoDec_iff_le_lds σ _ k (schensted_row_count σ h)
+
+/-- every word without an increasing subsequence of length 3 (every 123-avoider) passes `yt_perm_avoids_32` -/
+theorem ytAvoids32_of_avoids_123 (σ : NSeq) (h : σ.Nodup) (hav : ¬ Contains σ [0, 1, 2]) :
+    Model.ytAvoids32 σ = true := by
+  rw [ytAvoids32_iff_rows]
+  have : ¬ 3 ≤ ((Model.permToYt σ).getD 0 []).length := by
+    rw [← contains_identity_iff_first_row σ h 3]; exact hav
+  omega
+
+example : Contains [1, 3, 2, 0, 4] (Model.identity 3) ∧ ¬ Contains [1, 3, 2, 0, 4] (Model.identity 4) ∧
+    Contains [1, 3, 2, 0, 4] (Model.monoDec 3) := by
+  rw [contains_identity_iff_first_row _ (by decide), contains_identity_iff_first_row _ (by decide),
+    contains_monoDec_iff_row_count _ (by decide)]
+  decide
+
+-- ===== pv12c: end =====
 
 end C12
